@@ -412,7 +412,7 @@ func (t *Uint32Tree) Insert(key uint32, value interface{}) {
 		child.lock()
 
 		if index == 0 {
-			if smallest := child.smallest(); key < smallest {
+			if smallest := parent.runts[0]; key < smallest {
 				// preemptively update smallest value
 				parent.runts[0] = key
 			}
@@ -545,7 +545,7 @@ func (t *Uint32Tree) Update(key uint32, callback func(interface{}, bool) interfa
 		child.lock()
 
 		if index == 0 {
-			if smallest := child.smallest(); key < smallest {
+			if smallest := parent.runts[0]; key < smallest {
 				// preemptively update smallest value
 				parent.runts[0] = key
 			}
